@@ -254,6 +254,11 @@ class Cache:
         ):
             return "window function in `filter`"
 
+        if isinstance(node, verbs.Filter) and any(col.ftype() == Ftype.WINDOW for col in self.cols.values()):
+            # WHERE is evaluated before window functions in SQL, so every window function column of the table
+            # (not only those used in the predicate) would be computed on the filtered rows.
+            return "`filter` on a table containing a window function expression"
+
         if isinstance(node, verbs.Summarize):
             if self.group_by and self.group_by != set(self.partition_by):
                 return "nested summarize"
@@ -275,7 +280,8 @@ class Cache:
             ):
                 return "left / full join with a table containing a constant column"
 
-            if any(self.cols[uid].ftype() == Ftype.WINDOW for uid in self.uuid_to_name.keys()):
+            # hidden columns count, too: they can still be referenced after the join
+            if any(col.ftype() == Ftype.WINDOW for col in self.cols.values()):
                 return "join with a table containing window function expression"
 
             if any(
